@@ -757,7 +757,8 @@ pub(crate) fn run(
                     }
                 }
                 Insn::ContinueFromPreviousMatchEnd => {
-                    if ix > pos || option_flags & OPTION_SKIPPED_EMPTY_MATCH != 0 {
+                    // `ix` can also be before `pos`, when `\G` is used inside a look-behind
+                    if ix != pos || option_flags & OPTION_SKIPPED_EMPTY_MATCH != 0 {
                         break 'fail;
                     }
                 }
